@@ -260,3 +260,9 @@ def run(ctx):
 
 
 SWEEP = ["concurrent/test_garbage_collector.cpp"]
+
+
+# name anchors (validated by tools/rename_sweep.py; a vanished name is exit 2, see core.check_anchor_names)
+ANCHORS = {
+    'lowest_epoch': ['^babylon::GarbageCollector(<|$)'],
+}
